@@ -121,7 +121,15 @@ fn trig_nonascii_under_nested_replace(case: &Value, _clause: &str, _d: &str) -> 
 /// and attributes the text differently from the first stream.
 fn trig_nonascii_cached_replay(case: &Value, clause: &str, _d: &str) -> bool {
   let spec = spec_of(case);
-  if spec.model_text().is_ascii() || !spec.contains(&|s| matches!(s, crate::spec::Spec::Cached { .. })) {
+  // (a leaf's text, not the output: a replacement may delete the non-ASCII part)
+  let non_ascii_leaf = spec.contains(&|s| match s {
+    crate::spec::Spec::Concat { .. }
+    | crate::spec::Spec::Replace { .. }
+    | crate::spec::Spec::Cached { .. }
+    | crate::spec::Spec::Boxed { .. } => false,
+    leaf => !leaf.model_text().is_ascii(),
+  });
+  if !non_ascii_leaf || !spec.contains(&|s| matches!(s, crate::spec::Spec::Cached { .. })) {
     return false;
   }
   let Some(prop) = case.get("property").and_then(|p| p.as_str()).and_then(find) else {
